@@ -141,16 +141,21 @@ class StreamItemQueue:
         self._started.set()
         entries = self._entries
         held: Any = None
+        skipping = False
         while True:
             entry = await entries.get() if held is None else held
             held = None
+            if skipping and not isinstance(entry, _ErrorEntry):
+                continue  # items after a lost item must not be delivered
             if isfuture(entry):
                 if not entry.done():
                     await wait((entry,))
                 if entry.cancelled():
                     if self._failed:
                         # The item was still pending when the source failed and
-                        # has been cancelled; skip it to deliver the failure.
+                        # has been cancelled; skip it and everything queued behind
+                        # it (to keep the item order) to deliver the failure.
+                        skipping = True
                         continue
                     raise CancelledError
                 try:
